@@ -973,7 +973,7 @@ def run(ctx):
         while path is None or (path == 'main' and base is None):
             path = rng.choice(PATHS)
         cases.append(gen_case(rng, base or [], path))
-    rr = realrun_cases(random.Random(master.getrandbits(64)), (90 if ctx.tier == 'quick' else 2500) * ctx.boost)
+    rr = realrun_cases(random.Random(master.getrandbits(64)), (90 if ctx.tier == 'quick' else 1200) * ctx.boost)
     ctx.count('real-run-command:cases', len(rr))
     cases += rr
     real = realcmd_cases(random.Random(master.getrandbits(64)), 4 if ctx.tier == 'quick' else 60)
